@@ -84,7 +84,7 @@ def o5_1(tier):
     import stepup.core.workflow as wfm
 
     res = ObResult()
-    K, D = (4, 3) if tier == "quick" else (5, 4)
+    K, D = (4, 3) if tier == "quick" else (4, 4)
     res.bounds = f"{K} node slots, {D} dependency edges; any state satisfying the schema and I1-I9 (steps RUNNING/CHECKING/FAILED, hold counters, deferred flags arbitrary)"
     res.encoded += [enc(su.reset_interrupted_steps), enc(wfm.Workflow.steps), enc(wfm.Workflow.mark_step_pending), enc(wfm.Workflow.mark_file_outdated), enc(wfm.Workflow.mark_consuming_steps_pending), enc(stp.STEP_SCHEMA, "step.STEP_SCHEMA (triggers step_reset_holding, step_clear_deferred)")]
     FileState, StepState, Need = enums()
